@@ -221,44 +221,32 @@ func init() {
 		for i, p := range probePaths {
 			baseline[i], _ = ignorefiles.DefaultRuleset.Excludes(p)
 		}
-		for i := 0; i < cfg.N; i++ {
-			content := genRuleFile(r)
-			if i < 2*len(degenerateRuleLines) {
-				content = degenerateRuleLines[i/2]
-				if i%2 == 1 {
-					content = "foo\n" + content + "\n!bar/\n"
-				}
-			}
-			paths := make([]string, 12)
-			for j := range paths {
-				paths[j] = genIgnPath(r)
-			}
-			exotic := false
-			if i >= 2*len(degenerateRuleLines) && r.Chance(5) {
-				// patterns outside the modelled fragment (brackets, backslashes, an unbalanced bracket that
-				// makes the regular expression invalid): judged for robustness only, not sent to the model
-				exotic = true
-				content = r.Pick([]string{"[ab]\n", "a[\n", "a]\n", "\\*\n", "foo\\\n", "\\\n", "[\n", "a\\b/c\n", "*.[ch]\n!x\\\n", "[!a]\n", "[^a]*\n", "{a,b}[\n"}) + content
-			}
+		runOne := func(content string, paths []string, exotic bool) {
 			rs, err, pan := parseSafe(content)
 			line := "ignore " + X(content)
 			for _, p := range paths {
 				line += " " + X(p)
 			}
 			nt := strings.Contains(content, "!") || strings.Contains(content, "**") || strings.ContainsAny(content, "+()$|^{}")
-			sample := map[string]interface{}{"rulefile": content, "paths": paths[:3]}
+			np := len(paths)
+			if np > 3 {
+				np = 3
+			}
+			sample := map[string]interface{}{"rulefile": content, "paths": paths[:np]}
+			// what a difference records: the rule file with every path of the request (enough to replay it)
+			full := map[string]interface{}{"rulefile": content, "paths": paths}
 			rep.Case(line, nt, sample)
 			if pan != nil {
 				rep.Count("outcome:parse-panic")
 				rep.AddOracle(OracleFailure{Property: "C19", Lane: "ignore", What: fmt.Sprintf("ParseIgnoreFileContent panics: %v", pan), Input: map[string]string{"rulefile": content}})
 				reqs = append(reqs, line)
 				impl = append(impl, "panic")
-				human = append(human, sample)
-				continue
+				human = append(human, full)
+				return
 			}
 			if err != nil {
 				rep.Count("outcome:parse-error")
-				continue
+				return
 			}
 			rep.Count("outcome:parsed")
 			var outs []string
@@ -295,7 +283,7 @@ func init() {
 			if !exotic {
 				reqs = append(reqs, line)
 				impl = append(impl, strings.Join(outs, " "))
-				human = append(human, sample)
+				human = append(human, full)
 			} else {
 				rep.Count("outcome:exotic-pattern")
 			}
@@ -307,6 +295,53 @@ func init() {
 					baseline[k] = now
 				}
 			}
+		}
+		// exact replay (-case): the recorded rule file with its path ("path") or paths ("paths"; the
+		// built-in probe paths if the record names none) goes first
+		{
+			var rin struct {
+				Rulefile *string  `json:"rulefile"`
+				Path     *string  `json:"path"`
+				Paths    []string `json:"paths"`
+			}
+			if loadReplayInput(cfg, "ignore", &rin) && rin.Rulefile != nil {
+				var paths []string
+				if rin.Path != nil {
+					paths = append(paths, *rin.Path)
+				}
+				paths = append(paths, rin.Paths...)
+				if len(paths) == 0 {
+					paths = append(paths, probePaths...)
+				}
+				s0 := len(reqs)
+				rep.BeginReplay()
+				// patterns with brackets or backslashes are outside the modelled fragment (as in the generator)
+				runOne(*rin.Rulefile, paths, strings.ContainsAny(*rin.Rulefile, "[]\\"))
+				rep.EndReplay(reqs[s0:]...)
+			} else {
+				replayMissing(cfg, rep, "ignore")
+			}
+		}
+		for i := 0; i < cfg.N; i++ {
+			content := genRuleFile(r)
+			if i < 2*len(degenerateRuleLines) {
+				content = degenerateRuleLines[i/2]
+				if i%2 == 1 {
+					content = "foo\n" + content + "\n!bar/\n"
+				}
+			}
+			paths := make([]string, 12)
+			for j := range paths {
+				paths[j] = genIgnPath(r)
+			}
+			exotic := false
+			if i >= 2*len(degenerateRuleLines) && r.Chance(5) {
+				// patterns outside the modelled fragment (brackets, backslashes, an unbalanced bracket that
+				// makes the regular expression invalid): judged for robustness only, not sent to the model
+				exotic = true
+				content = r.Pick([]string{"[ab]\n", "a[\n", "a]\n", "\\*\n", "foo\\\n", "\\\n", "[\n", "a\\b/c\n", "*.[ch]\n!x\\\n", "[!a]\n", "[^a]*\n", "{a,b}[\n"}) + content
+			}
+			runOne(content, paths, exotic)
 		}
 		// the model answers "unsupported" for rule files outside its fragment; those cases are judged by
 		// the oracle only (the generator produces none, so any such answer is reported as a difference)
